@@ -357,9 +357,12 @@ impl BreakerBase {
 
 impl Drop for BreakerBase {
     fn drop(&mut self) {
+        // the state is read before the listener lock is taken: every transition (and the roll-back hook of a
+        // rejected probe, which shares the state) takes the state lock first and the listener lock second
+        let state = self.current_state();
         let listeners = state_change_listeners().lock().unwrap();
         for listener in &*listeners {
-            listener.on_circuit_breaker_drop(self.current_state(), Arc::clone(&self.rule));
+            listener.on_circuit_breaker_drop(state, Arc::clone(&self.rule));
         }
     }
 }
